@@ -17,7 +17,9 @@ RULE = ('2-3 real threads, each with its own compiled workbook and program (iter
         'evaluation with per-thread iterations/tolerance and a PROBE pass counter; array-formula '
         'evaluation that needs expanding / trimming / NA-filling; plain set_value/evaluate '
         'history; from_file of plain and iterative models; set_value + trim_graph; acyclic book '
-        'in iterative mode), models built inside or outside the thread, threads fresh or '
+        'in iterative mode; in 3 percent of the randomly scheduled runs a 400-cell chain that '
+        'exhausts the interpreter\'s recursion limit and has to fail the same way next to other '
+        'threads), models built inside or outside the thread, threads fresh or '
         'warmed-up with another workbook, started as plain threading.Thread or (a quarter of the '
         'randomly scheduled runs) inside a copy of the contextvars context of a starter thread '
         'that has used the library, as asyncio.to_thread does; exactly one thread runs at a time and every switch is '
@@ -193,8 +195,28 @@ def prog_cellfn(rnd, tname):
     return {'kind': 'cellfn', 'spec': spec, 'ops': ops}
 
 
+def prog_deep(rnd, tname):
+    """a chain far deeper than the interpreter's recursion limit allows (pycel evaluates
+    precedents recursively): fails alone, has to fail the same way next to other threads.
+    The same program every time (a failing evaluation of this depth takes seconds, the
+    alone runs are kept per worker process)."""
+    n = 400
+    cells = [{'a': 'S!A1', 'v': 1}]
+    cells += [{'a': f'S!A{i}', 'f': f'=A{i - 1}+1', 'p': [f'S!A{i - 1}'], 'd': []}
+              for i in range(2, n + 1)]
+    cells.append({'a': 'S!B1', 'f': '=A3*2', 'p': ['S!A3'], 'd': []})
+    spec = {'sheets': ['S'], 'active': 'S', 'data_sheet': None, 'cells': cells, 'names': {},
+            'iter': None, 'pinned': []}
+    ops = [{'op': 'eval', 'a': 'S!B1', 'form': 'cell'},
+           {'op': 'eval', 'a': f'S!A{n}', 'form': 'cell'},
+           {'op': 'eval', 'a': f'S!A{n // 8}', 'form': 'cell'}]
+    return {'kind': 'deep', 'spec': spec, 'ops': ops}
+
+
 def draw_program(rnd, tname, kind):
-    if kind == 'iterative':
+    if kind == 'deep':
+        p = prog_deep(rnd, tname)
+    elif kind == 'iterative':
         p = prog_iterative(rnd, tname)
     elif kind == 'array':
         p = prog_array(rnd, tname)
@@ -210,6 +232,8 @@ def draw_program(rnd, tname, kind):
         p = prog_cellfn(rnd, tname)
     p['name'] = tname
     p['build'] = rnd.choice(('inside', 'inside', 'outside'))
+    if kind == 'deep':
+        p['build'] = 'inside'
     p['warm'] = rnd.random() < 0.4
     return p
 
@@ -250,9 +274,11 @@ def gen_case(rnd, tier, index):
         kinds = [rnd.choice(KINDS) for _ in range(n)]
         if kf4:
             kinds = ['cellfn', 'cellfn'] + kinds[2:]
+        elif rnd.random() < 0.03:
+            kinds[rnd.randrange(n)] = 'deep'
         programs = [draw_program(rnd, f'T{i}', k) for i, k in enumerate(kinds)]
         names = [pr['name'] for pr in programs]
-        line = (not kf4) and rnd.random() < 0.25
+        line = (not kf4) and rnd.random() < 0.25 and 'deep' not in kinds
         if line and rnd.random() < 0.5:
             # A is pre-empted inside a function drawn uniformly from the *distinct* functions
             # of pycel its alone run passes through (so that a leaf function that accounts
@@ -521,39 +547,48 @@ def run_case(case):
         diff = library_canary()
         count('library-canary-runs')
         if diff:
-            violate('fresh-thread-differs', 'canary', [diff[1]], [diff[2]], kind='library-canary',
-                    build=diff[0])
+            # kept apart: the case itself runs as usual, so that its digest does not depend on
+            # whether it happened to be the first case of its process
+            state['canary'] = dict(rule='fresh-thread-differs', step=0,
+                                   op={'op': 'program', 'thread': 'canary'},
+                                   expected=[diff[1]], got=[diff[2]], kind='library-canary',
+                                   build=diff[0])
     grain = schedule.get('grain', 'cell')
     key = hashlib.sha256(json.dumps([programs, grain], sort_keys=True, default=str).encode()
-                         ).hexdigest()
+                         ).hexdigest()     # names the workload in the distinctness signature
     with TmpDir() as tmp:
         # 1. alone on a used thread (reference), alone on a fresh thread, alone on a warm thread
-        if key in _REF_CACHE:
-            ref, lengths, sites = _REF_CACHE[key]
-        else:
-            ref, lengths, sites = {}, {}, {}
-            for p in programs:
-                ref[p['name']] = run_alone(p, tmp, 'ref', heavy=False)
-                fresh = run_alone(p, tmp, 'fresh', heavy=None)
-                count('alone-runs', 2)
-                if fresh != ref[p['name']]:
-                    i = _first_diff(ref[p['name']], fresh)
-                    violate('fresh-thread-differs', p['name'], ref[p['name']][i:i + 1],
-                            fresh[i:i + 1], step=i, kind=p['kind'], build=p['build'])
-                    break
-                warm = run_alone(p, tmp, 'warm', heavy=True)
-                count('alone-runs')
-                count('fault:warm-thread')
-                if warm != ref[p['name']]:
-                    i = _first_diff(ref[p['name']], warm)
-                    violate('warm-thread-differs', p['name'], ref[p['name']][i:i + 1],
-                            warm[i:i + 1], step=i, kind=p['kind'], build=p['build'])
-                    break
-                lengths[p['name']], sites[p['name']] = count_events(p, tmp, 'len', grain)
-            if not state['violation']:
-                if len(_REF_CACHE) > 8:
-                    _REF_CACHE.clear()
-                _REF_CACHE[key] = (ref, lengths, sites)
+        #    (kept per program for the life of the worker process)
+        ref, lengths, sites = {}, {}, {}
+        for p in programs:
+            # (the alone runs do not look at 'warm'; the deep chain has no per-thread probes)
+            kp = {k_: v_ for k_, v_ in p.items()
+                  if k_ != 'warm' and not (k_ == 'name' and p['kind'] == 'deep')}
+            pkey = hashlib.sha256(json.dumps([kp, grain], sort_keys=True, default=str).encode()
+                                  ).hexdigest()
+            if pkey in _REF_CACHE:
+                ref[p['name']], lengths[p['name']], sites[p['name']] = _REF_CACHE[pkey]
+                continue
+            ref[p['name']] = run_alone(p, tmp, 'ref', heavy=False)
+            fresh = run_alone(p, tmp, 'fresh', heavy=None)
+            count('alone-runs', 2)
+            if fresh != ref[p['name']]:
+                i = _first_diff(ref[p['name']], fresh)
+                violate('fresh-thread-differs', p['name'], ref[p['name']][i:i + 1],
+                        fresh[i:i + 1], step=i, kind=p['kind'], build=p['build'])
+                break
+            warm = run_alone(p, tmp, 'warm', heavy=True)
+            count('alone-runs')
+            count('fault:warm-thread')
+            if warm != ref[p['name']]:
+                i = _first_diff(ref[p['name']], warm)
+                violate('warm-thread-differs', p['name'], ref[p['name']][i:i + 1],
+                        warm[i:i + 1], step=i, kind=p['kind'], build=p['build'])
+                break
+            lengths[p['name']], sites[p['name']] = count_events(p, tmp, 'len', grain)
+            if len(_REF_CACHE) > 12:
+                _REF_CACHE.clear()
+            _REF_CACHE[pkey] = (ref[p['name']], lengths[p['name']], sites[p['name']])
         switches = []
         taken = []
         if not state['violation']:
@@ -657,7 +692,7 @@ def run_case(case):
                             val[i:i + 1], step=i, kind=p['kind'], others=other,
                             build=p['build'])
                     break
-    v = state['violation']
+    v = state['violation'] or state.get('canary')
     if v:
         kinds = sorted(p['kind'] for p in programs)
         if 'cellfn' in kinds and v['rule'] == 'differs-from-alone-run' and v.get('kind') == 'cellfn':
